@@ -14,6 +14,8 @@
            TB_ex_remove, TB_ex_conservative, and instances of the hypotheses of the step theorems.
    Part 9  TB_cache_ok_step, TB_cache_ok_history, tb_key_inj, TB_cached_peer: after any history the connection cached
            for a backend object is a connection to that backend's address.
+   Part 10 conns_fresh: TB_conns_fresh_init / _proxy_step / _step / _history / _reachable (connection numbers are unique and
+           below the next one), TB_remove_closes_reachable, TB_cached_conn_unique.
    Every statement below is closed under the global context (see the audit at the end of the file). *)
 From Coq Require Import List Ascii String ZArith Bool Arith Lia.
 From Model Require Import Bytes BytesLemmas Uri Hdr Message Msg Rx Glob StaticRoute RoundRobin Pins Proxy RunProxy ProxyTB.
@@ -1537,6 +1539,379 @@ Example TB_note_backend_address_learned :
   alookup (s2b "10.0.0.98") (st_learned (fst (state_tb (run_tb tb_flags all_fixed tb_cfg tb_st0 [] h)))) = Some tb_local.
 Proof. vm_compute. split; reflexivity. Qed.
 
+(* ================================================================== Part 10: connection numbers are unique *)
+(* every known connection has its own number, below the next one to be given out *)
+Definition conns_fresh (st : state) : Prop :=
+  NoDup (map cn_id (st_conns st)) /\ forall c, In c (st_conns st) -> (cn_id c < w_next_conn (st_world st))%nat.
+(* the same on the list of numbers *)
+Definition fresh (cs : list conn) (w : world) : Prop :=
+  NoDup (map cn_id cs) /\ forall i, In i (map cn_id cs) -> (i < w_next_conn w)%nat.
+Definition xfresh (x : ctx) : Prop := fresh (x_conns x) (x_world x).
+Lemma conns_fresh_iff st : conns_fresh st <-> fresh (st_conns st) (st_world st).
+Proof.
+  unfold conns_fresh, fresh. split; intros (ND & B); (split; [exact ND|]).
+  - intros i I. apply in_map_iff in I. destruct I as (c & <- & I). exact (B c I).
+  - intros c I. apply B. apply in_map. exact I.
+Qed.
+Lemma close_conn_ids c cs : map cn_id (close_conn c cs) = map cn_id cs.
+Proof.
+  induction cs as [|x r IH]; [reflexivity|]. cbn [close_conn].
+  destruct (Nat.eqb (cn_id x) c); cbn [map cn_id]; [reflexivity|rewrite IH; reflexivity].
+Qed.
+Lemma fresh_close c cs w : fresh cs w -> fresh (close_conn c cs) w.
+Proof. unfold fresh. rewrite close_conn_ids. intros H. exact H. Qed.
+Lemma NoDup_snoc {A} (l : list A) n : NoDup l -> ~ In n l -> NoDup (l ++ [n]).
+Proof.
+  induction l as [|x l IH]; intros ND NI; cbn [app].
+  - constructor; [intros []|constructor].
+  - inversion ND as [|? ? NX ND']; subst. constructor.
+    + intros I. apply in_app_or in I. destruct I as [I|[E|[]]]; [exact (NX I)|]. apply NI. left. symmetry. exact E.
+    + apply IH; [exact ND'|]. intros I. apply NI. right. exact I.
+Qed.
+Lemma fresh_new cs w cn l : fresh cs w -> cn_id cn = w_next_conn w ->
+  fresh (cs ++ [cn]) {| w_tcp_listeners := l; w_next_conn := S (w_next_conn w) |}.
+Proof.
+  intros (ND & B) E. unfold fresh. rewrite map_app. cbn [map w_next_conn]. rewrite E. split.
+  - apply NoDup_snoc; [exact ND|]. intros I. apply B in I. lia.
+  - intros i I. apply in_app_or in I. destruct I as [I|[<-|[]]]; [apply B in I; lia|lia].
+Qed.
+
+Lemma tcp_client_send_fresh n : forall li local rs id b p cs w outs p' cs' w' outs' ok,
+  tcp_client_send n li local rs id b p cs w outs = (p', cs', w', outs', ok) -> fresh cs w -> fresh cs' w'.
+Proof.
+  induction n as [|n IH]; intros li local rs id b p cs w outs p' cs' w' outs' ok; cbn [tcp_client_send].
+  - intros H F. injection H as <- <- <- <- <-. exact F.
+  - destruct (find_client id (ps_clients p)) as [cl|]; [|intros H F; injection H as <- <- <- <- <-; exact F].
+    destruct (tc_cached cl) as [c|].
+    + destruct (conn_open cs c); [intros H F; injection H as <- <- <- <- <-; exact F|].
+      intros H. exact (IH _ _ _ _ _ _ _ _ _ _ _ _ _ _ H).
+    + destruct (existsb _ (w_tcp_listeners w)); [|intros H F; injection H as <- <- <- <- <-; exact F].
+      cbv zeta. intros H F. injection H as <- <- <- <- <-. apply fresh_new; [exact F|reflexivity].
+Qed.
+Lemma failover_send_fresh li local rs f b p cs w p' cs' w' outs ok f' :
+  failover_send li local rs f b p cs w = (p', cs', w', outs, ok, f') -> fresh cs w -> fresh cs' w'.
+Proof.
+  unfold failover_send.
+  assert (SEC : forall f1 p' cs' w' outs0 outs ok f',
+            match fo_sec f1 with
+            | Some id => let '(p2, cs2, w2, outs2, ok) := tcp_client_send 2 li local rs id b p cs w outs0 in
+                         (p2, cs2, w2, outs2, ok, f1)
+            | None => (p, cs, w, outs0, false, f1)
+            end = (p', cs', w', outs, ok, f') -> fresh cs w -> fresh cs' w').
+  { intros f1 p2 cs2 w2 outs0 outs2 ok2 f2. destruct (fo_sec f1) as [id|].
+    - destruct (tcp_client_send 2 li local rs id b p cs w outs0) as [[[[p3 cs3] w3] outs3] ok3] eqn:E.
+      intros H. injection H as <- <- <- <- <- <-. exact (tcp_client_send_fresh _ _ _ _ _ _ _ _ _ _ _ _ _ _ _ E).
+    - intros H F. injection H as <- <- <- <- <- <-. exact F. }
+  destruct (fo_pri f) as [[ip port|ip port|c ex]|].
+  - destruct (fits_datagram b); [intros H F; injection H as <- <- <- <- <- <-; exact F|apply SEC].
+  - destruct (fits_datagram b); [intros H F; injection H as <- <- <- <- <- <-; exact F|apply SEC].
+  - destruct (conn_open cs c); [intros H F; injection H as <- <- <- <- <- <-; exact F|apply SEC].
+  - apply SEC.
+Qed.
+Lemma send_message_fresh e host port tr m x : xfresh x -> xfresh (fst (send_message e host port tr m x)).
+Proof.
+  intros F. unfold send_message. destruct (mtry s_client_transaction m) as [m1 tid].
+  destruct (get_transport _ _ _ _ _ _) as [p1 rkey].
+  destruct rkey as [key| |]; try exact F.
+  match goal with |- context [alookup key (ps_table ?p2)] => set (P2 := p2) end.
+  destruct (alookup key (ps_table P2)) as [f|]; [|exact F].
+  match goal with |- context [failover_send ?a ?b ?c ?d ?e ?f ?g ?h] =>
+    destruct (failover_send a b c d e f g h) as [[[[[p4 cs] w] outs] ok] f'] eqn:EF end.
+  unfold xfresh. cbn [fst x_conns x_world]. exact (failover_send_fresh _ _ _ _ _ _ _ _ _ _ _ _ _ _ EF F).
+Qed.
+Ltac send_fresh F :=
+  match goal with |- xfresh (fst (send_message ?e ?h ?p ?t ?m ?X)) =>
+    exact (send_message_fresh e h p t m X F) end.
+Lemma send_to_backend_world e m x : x_world (fst (send_to_backend e m x)) = x_world x.
+Proof.
+  destruct (ps_has_rr (x_p x)) eqn:HR; [|rewrite (send_to_backend_off e m x (or_introl HR)); reflexivity].
+  destruct (first_transport (e_lc e)) as [t0|] eqn:FT; [|rewrite (send_to_backend_off e m x (or_intror FT)); reflexivity].
+  rewrite (send_to_backend_unfold e m x t0 HR FT). destruct (C04.stb_sel e (x_p x) m) as [p1 bk]. cbv zeta.
+  destruct (backend_send bk _ p1) as [[p2 outs] ok]. destruct ok; reflexivity.
+Qed.
+Lemma handle_message_fresh e from m x : xfresh x -> xfresh (fst (handle_message e from m x)).
+Proof.
+  intros F. unfold handle_message. destruct (is_request m).
+  - destruct (next_request_hop _ _ m) as [m1 r].
+    assert (BK : xfresh (fst (if is_my_message (new_my_name (c_name (e_cfg e))) from m1
+                              then send_to_backend e m1 x else (x, m1)))).
+    { destruct (is_my_message _ from m1); [|exact F].
+      unfold xfresh. rewrite send_to_backend_conns, send_to_backend_world. exact F. }
+    destruct r as [[[host port] tr]| |]; try exact BK. send_fresh F.
+  - destruct (mtry s_pop_via m) as [m1 r1]. destruct (mtry next_response_hop m1) as [m2 hop].
+    destruct (mtry s_get_method m2) as [m3 ometh].
+    destruct hop as [[[[h p] t]|]| |]; try exact F.
+    destruct ometh as [[meth|]| |]; try send_fresh F.
+    destruct (beq meth (s2b "SUBSCRIBE")); [|send_fresh F].
+    destruct (alookup _ (ps_backends (x_p x))); [|send_fresh F].
+    destruct (mtry s_get_dialog m3) as [m' od]. destruct od as [[d|]| |]; send_fresh F.
+Qed.
+Lemma process_message_fresh e peer port from rs tcp m0 x x' :
+  process_message e peer port from rs tcp m0 x = Ok x' -> xfresh x -> xfresh x'.
+Proof.
+  rewrite process_message_reach. destruct (pm_reach e peer port from rs tcp m0 x) as [[m5 x1]| |] eqn:PR; try discriminate.
+  destruct (pm_reach_frame _ _ _ _ _ _ _ _ _ _ PR) as (_ & C1 & W1).
+  intros H F. injection H as <-. apply handle_message_fresh. unfold xfresh. rewrite C1, W1. exact F.
+Qed.
+Lemma tcp_messages_fresh f : forall e c s x x', tcp_messages f e c s x = Ok x' -> xfresh x -> xfresh x'.
+Proof.
+  induction f as [|f IH]; intros e c s x x'; cbn [tcp_messages].
+  - intros H F. injection H as <-. exact F.
+  - destruct (trim_left s); [intros H F; injection H as <-; exact F|].
+    destruct (parse_message s) as [[m rest]| |].
+    + destruct (process_message e _ _ _ _ _ m x) as [x1| |] eqn:EP; try discriminate.
+      intros H F. exact (IH _ _ _ _ _ H (process_message_fresh _ _ _ _ _ _ _ _ _ EP F)).
+    + intros H F. injection H as <-. unfold xfresh. cbn [x_conns x_world]. apply fresh_close. exact F.
+    + intros H F. injection H as <-. unfold xfresh. cbn [x_conns x_world]. apply fresh_close. exact F.
+Qed.
+Lemma proxy_step_fresh fx c now br st ev st' outs :
+  proxy_step fx c now br st ev = Ok (st', outs) -> fresh (st_conns st) (st_world st) -> fresh (st_conns st') (st_world st').
+Proof.
+  intros H F. destruct ev as [li src sport data|li src sport|cid data|cid|li a|li a]; cbn [proxy_step] in H.
+  - destruct (nth_opt (c_listens c) li) as [lc|]; [|injection H as <- _; exact F].
+    destruct (parse_message data) as [[m rest]| |]; try (injection H as <- _; exact F).
+    unfold run_ctx in H. destruct (nth_p (st_proxies st) li) as [p|]; [|injection H as <- _; exact F].
+    destruct (process_message _ _ _ _ _ _ _ _) as [x'| |] eqn:EP; try discriminate.
+    injection H as <- _. cbn [st_conns st_world]. exact (process_message_fresh _ _ _ _ _ _ _ _ _ EP F).
+  - destruct (nth_opt (c_listens c) li) as [lc|]; [|injection H as <- _; exact F].
+    destruct (nth_p (st_proxies st) li) as [p|]; [|injection H as <- _; exact F].
+    destruct (get_transport _ _ _ _ _ _) as [p1 rk]. injection H as <- _. cbn [st_conns st_world].
+    apply fresh_new; [exact F|reflexivity].
+  - destruct (find _ (st_conns st)) as [cn|]; [|injection H as <- _; exact F].
+    destruct (cn_open cn); [|injection H as <- _; exact F].
+    destruct (nth_opt (c_listens c) (cn_li cn)) as [lc|]; [|injection H as <- _; exact F].
+    unfold run_ctx in H. destruct (nth_p (st_proxies st) (cn_li cn)) as [p|]; [|injection H as <- _; exact F].
+    destruct (tcp_messages _ _ _ _ _) as [x'| |] eqn:EP; try discriminate.
+    injection H as <- _. cbn [st_conns st_world]. exact (tcp_messages_fresh _ _ _ _ _ _ EP F).
+  - injection H as <- _. cbn [st_conns st_world]. apply fresh_close. exact F.
+  - destruct (nth_p (st_proxies st) li) as [p|]; injection H as <- _; exact F.
+  - destruct (nth_p (st_proxies st) li) as [p|]; [|injection H as <- _; exact F].
+    destruct (rr_remove a (ps_rr p)) as [r' closed]. injection H as <- _. exact F.
+Qed.
+
+(* the TCP-backend side *)
+Lemma tcp_backend_send_fresh e a g b x cache x' cache' outs ok :
+  tcp_backend_send e a g b x cache = (x', cache', outs, ok) -> xfresh x -> xfresh x'.
+Proof.
+  rewrite tcp_backend_send_cases. destruct (last_index_byte ":"%char a) as [pos|].
+  2:{ intros E F. injection E as <- _ _ _. exact F. }
+  cbv zeta. destruct (tb_usable x (tb_key (e_li e) a g) cache) as [c|].
+  { intros E F. injection E as <- _ _ _. exact F. }
+  destruct (tb_listens x (firstn pos a) (atoi_val (skipn (S pos) a))); intros E F; injection E as <- _ _ _; [|exact F].
+  unfold xfresh, tb_dial_ctx. cbn [x_conns x_world]. apply fresh_new; [exact F|reflexivity].
+Qed.
+Lemma backend_send_tb_fresh e bk b x cache x' cache' outs ok :
+  backend_send_tb e bk b x cache = (x', cache', outs, ok) -> xfresh x -> xfresh x'.
+Proof.
+  unfold backend_send_tb. destruct bk as [a g|].
+  - apply tcp_backend_send_fresh.
+  - destruct (rr_dispatch (ps_rr (x_p x))) as [r' o]. cbv beta iota zeta.
+    destruct o as [a|]; [destruct (alookup a (ps_backends (x_p x))) as [g|]|]; cbv beta iota zeta.
+    + intros E F. exact (tcp_backend_send_fresh _ _ _ _ _ _ _ _ _ _ E F).
+    + intros E F. injection E as <- _ _ _. exact F.
+    + intros E F. injection E as <- _ _ _. exact F.
+Qed.
+Lemma send_to_backend_tb_fresh e m x cache : xfresh x -> xfresh (fst (fst (send_to_backend_tb e m x cache))).
+Proof.
+  intros F.
+  destruct (ps_has_rr (x_p x)) eqn:HR; [|rewrite (send_to_backend_tb_off e m x cache (or_introl HR)); exact F].
+  destruct (first_transport (e_lc e)) as [t0|] eqn:FT; [|rewrite (send_to_backend_tb_off e m x cache (or_intror FT)); exact F].
+  rewrite (send_to_backend_tb_unfold e m x cache t0 HR FT). destruct (C04.stb_sel e (x_p x) m) as [p1 bk]. cbv zeta.
+  destruct (backend_send_tb e bk _ (with_p x p1) cache) as [[[x2 cache2] outs] ok] eqn:BT.
+  apply (backend_send_tb_fresh e bk _ (with_p x p1) cache) in BT; [|exact F].
+  destruct ok; exact BT.
+Qed.
+Lemma handle_message_tb_fresh e from m x cache : xfresh x -> xfresh (fst (fst (handle_message_tb e from m x cache))).
+Proof.
+  intros F. destruct (reaches_backend e from m) eqn:RB.
+  - pose proof (TB_copy_faithful_backend e from m x cache RB) as E. cbv zeta in E. destruct E as (E & _). rewrite E.
+    apply send_to_backend_tb_fresh. exact F.
+  - rewrite (TB_copy_faithful e from m x cache RB). unfold lift_hm.
+    pose proof (handle_message_fresh e from m x F) as K. destruct (handle_message e from m x) as [x' m']. exact K.
+Qed.
+Lemma process_message_tb_fresh e peer port from rs tcp m0 x cache x' cache' :
+  process_message_tb e peer port from rs tcp m0 x cache = Ok (x', cache') -> xfresh x -> xfresh x'.
+Proof.
+  rewrite process_message_tb_reach.
+  destruct (pm_reach e peer port from rs tcp m0 x) as [[m5 x1]| |] eqn:PR; try discriminate.
+  destruct (pm_reach_frame _ _ _ _ _ _ _ _ _ _ PR) as (_ & C1 & W1). intros E F.
+  assert (F1 : xfresh x1) by (unfold xfresh; rewrite C1, W1; exact F).
+  pose proof (handle_message_tb_fresh e from m5 x1 cache F1) as K.
+  destruct (handle_message_tb e from m5 x1 cache) as [[x2 mm] c2]. cbn [fst] in K. injection E as <- _. exact K.
+Qed.
+Lemma tcp_messages_tb_fresh f : forall e c s x cache x' cache',
+  tcp_messages_tb f e c s x cache = Ok (x', cache') -> xfresh x -> xfresh x'.
+Proof.
+  induction f as [|f IH]; intros e c s x cache x' cache'; cbn [tcp_messages_tb].
+  - intros E F. injection E as <- _. exact F.
+  - destruct (trim_left s); [intros E F; injection E as <- _; exact F|].
+    destruct (parse_message s) as [[m rest]| |].
+    + destruct (process_message_tb e _ _ _ _ _ m x cache) as [[x1 cache1]| |] eqn:EP; try discriminate.
+      intros E F. exact (IH _ _ _ _ _ _ _ E (process_message_tb_fresh _ _ _ _ _ _ _ _ _ _ _ EP F)).
+    + intros E F. injection E as <- _. unfold xfresh. cbn [x_conns x_world]. apply fresh_close. exact F.
+    + intros E F. injection E as <- _. unfold xfresh. cbn [x_conns x_world]. apply fresh_close. exact F.
+Qed.
+
+(* the initial state; one event of Proxy; one event of ProxyTB; every history *)
+Theorem TB_conns_fresh_init : forall c now tl, conns_fresh (init_state c now tl).
+Proof. intros c now tl. split; [constructor|intros cn []]. Qed.
+Theorem TB_conns_fresh_proxy_step : forall fx c now br st ev st' outs,
+  conns_fresh st -> proxy_step fx c now br st ev = Ok (st', outs) -> conns_fresh st'.
+Proof.
+  intros fx c now br st ev st' outs F H. apply conns_fresh_iff. apply conns_fresh_iff in F.
+  exact (proxy_step_fresh _ _ _ _ _ _ _ _ H F).
+Qed.
+Theorem TB_conns_fresh_step : forall tb fx c now br st cache ev st' cache' outs,
+  conns_fresh st -> proxy_step_tb tb fx c now br st cache ev = Ok (st', cache', outs) -> conns_fresh st'.
+Proof.
+  intros tb fx c now br st cache ev st' cache' outs F0. apply conns_fresh_iff in F0.
+  intros H. apply conns_fresh_iff. revert H. unfold proxy_step_tb.
+  assert (LIFT : lift_step (proxy_step fx c now br st ev) cache = Ok (st', cache', outs) -> fresh (st_conns st') (st_world st')).
+  { unfold lift_step. destruct (proxy_step fx c now br st ev) as [[st1 o]| |] eqn:E; try discriminate.
+    intros E'. injection E' as <- _ _. exact (proxy_step_fresh _ _ _ _ _ _ _ _ E F0). }
+  destruct (negb _); [exact LIFT|].
+  destruct ev as [li src sport data|li src sport|cid data|cid|li a|li a]; try exact LIFT.
+  - destruct (nth_opt (c_listens c) li) as [lc|]; [|intros E; injection E as <- _ _; exact F0].
+    cbv zeta. destruct (parse_message data) as [[m rest]| |]; try (intros E; injection E as <- _ _; exact F0).
+    unfold run_ctx_tb. destruct (nth_p (st_proxies st) li) as [p|]; [|intros E; injection E as <- _ _; exact F0].
+    match goal with |- context [process_message_tb ?e ?a ?b ?f ?r ?t ?m ?x ?ch] =>
+      destruct (process_message_tb e a b f r t m x ch) as [[x' ch']| |] eqn:PM end; try discriminate.
+    intros E. injection E as <- _ _. cbn [st_conns st_world].
+    refine (process_message_tb_fresh _ _ _ _ _ _ _ _ _ _ _ PM _). exact F0.
+  - destruct (find _ (st_conns st)) as [cn|]; [|intros E; injection E as <- _ _; exact F0].
+    destruct (cn_open cn); [|intros E; injection E as <- _ _; exact F0]. cbv zeta.
+    destruct (nth_opt (c_listens c) (cn_li cn)) as [lc|]; [|intros E; injection E as <- _ _; exact F0].
+    unfold run_ctx_tb. destruct (nth_p (st_proxies st) (cn_li cn)) as [p|]; [|intros E; injection E as <- _ _; exact F0].
+    match goal with |- context [tcp_messages_tb ?f ?e ?c ?s ?x ?ch] =>
+      destruct (tcp_messages_tb f e c s x ch) as [[x' ch']| |] eqn:TM end; try discriminate.
+    intros E. injection E as <- _ _. cbn [st_conns st_world].
+    refine (tcp_messages_tb_fresh _ _ _ _ _ _ _ _ TM _). exact F0.
+  - destruct (nth_p (st_proxies st) li) as [p|]; [|intros E; injection E as <- _ _; exact F0].
+    cbv zeta. destruct (proxy_step fx c now br st (EvBackendRemove li a)) as [[st1 o]| |] eqn:E; try discriminate.
+    apply (fun H => proxy_step_fresh _ _ _ _ _ _ _ _ H F0) in E. intros E'. injection E' as <- _ _.
+    destruct (if mem_bytes a (rr_map (ps_rr p)) then _ else None) as [cid|].
+    + cbn [st_conns st_world]. apply fresh_close. exact E.
+    + exact E.
+Qed.
+Theorem TB_conns_fresh_history : forall tb fx c h st cache st' cache' outss,
+  conns_fresh st -> run_tb tb fx c st cache h = Ok (st', cache', outss) -> conns_fresh st'.
+Proof.
+  intros tb fx c h. induction h as [|[[now br] ev] r IH]; intros st cache st' cache' outss F; cbn [run_tb].
+  - intros E. injection E as <- _ _. exact F.
+  - destruct (proxy_step_tb tb fx c now br st cache ev) as [[[st1 cache1] o]| |] eqn:E1; try discriminate.
+    destruct (run_tb tb fx c st1 cache1 r) as [[[st2 cache2] os]| |] eqn:E2; try discriminate.
+    intros E. injection E as <- _ _. exact (IH _ _ _ _ _ (TB_conns_fresh_step _ _ _ _ _ _ _ _ _ _ _ F E1) E2).
+Qed.
+(* ... in particular in every state reached from the initial one *)
+Corollary TB_conns_fresh_reachable : forall tb fx c c0 now0 tl h st cache outss,
+  run_tb tb fx c (init_state c0 now0 tl) [] h = Ok (st, cache, outss) -> conns_fresh st.
+Proof.
+  intros tb fx c c0 now0 tl h st cache outss R.
+  exact (TB_conns_fresh_history _ _ _ _ _ _ _ _ _ (TB_conns_fresh_init c0 now0 tl) R).
+Qed.
+
+(* with unique numbers, "the connection numbered c" is one record *)
+Lemma NoDup_map_inj {A B} (f : A -> B) (l : list A) a b :
+  NoDup (map f l) -> In a l -> In b l -> f a = f b -> a = b.
+Proof.
+  induction l as [|x r IH]; intros ND Ia Ib E; [destruct Ia|]. cbn [map] in ND. inversion ND as [|? ? NI ND']; subst.
+  destruct Ia as [->|Ia], Ib as [->|Ib].
+  - reflexivity.
+  - exfalso. apply NI. rewrite E. apply in_map. exact Ib.
+  - exfalso. apply NI. rewrite <- E. apply in_map. exact Ia.
+  - exact (IH ND' Ia Ib E).
+Qed.
+Lemma conn_open_unique cs cn : NoDup (map cn_id cs) -> In cn cs -> conn_open cs (cn_id cn) = cn_open cn.
+Proof.
+  induction cs as [|x r IH]; intros ND I; [destruct I|]. cbn [map] in ND. inversion ND as [|? ? NI ND']; subst.
+  unfold conn_open. cbn [existsb]. destruct I as [->|I].
+  - rewrite Nat.eqb_refl. cbn [andb]. destruct (cn_open cn); [reflexivity|]. cbn [orb].
+    exact (conn_open_absent (cn_id cn) r NI).
+  - destruct (Nat.eqb_spec (cn_id x) (cn_id cn)) as [E|E].
+    + exfalso. apply NI. rewrite E. apply in_map. exact I.
+    + cbn [andb orb]. exact (IH ND' I).
+Qed.
+
+(* TB_remove_closes in a reachable state: the cached connection IS closed (no side condition) *)
+Theorem TB_remove_closes_reachable : forall tb fx c c0 now0 tl h st cache outss,
+  run_tb tb fx c (init_state c0 now0 tl) [] h = Ok (st, cache, outss) ->
+  forall now br li addr p g cid,
+  is_tb tb li = true -> nth_p (st_proxies st) li = Some p ->
+  mem_bytes addr (rr_map (ps_rr p)) = true -> alookup addr (ps_backends p) = Some g ->
+  alookup (tb_key li addr g) cache = Some cid ->
+  exists st' stp p',
+    proxy_step_tb tb fx c now br st cache (EvBackendRemove li addr) = Ok (st', cache, []) /\
+    proxy_step fx c now br st (EvBackendRemove li addr) = Ok (stp, []) /\
+    st_conns st' = close_conn cid (st_conns st) /\ st_conns stp = st_conns st /\
+    conn_open (st_conns st') cid = false /\
+    (forall c', c' <> cid -> conn_open (st_conns st') c' = conn_open (st_conns st) c') /\
+    st_proxies st' = st_proxies stp /\ st_learned st' = st_learned stp /\ st_world st' = st_world stp /\
+    nth_p (st_proxies st') li = Some p' /\
+    ps_backends p' = adel addr (ps_backends p) /\ alookup addr (ps_backends p') = None /\
+    ps_rr p' = fst (rr_remove addr (ps_rr p)) /\ mem_bytes addr (rr_map (ps_rr p')) = false /\
+    conns_fresh st'.
+Proof.
+  intros tb fx c c0 now0 tl h st cache outss R now br li addr p g cid TB N M A K.
+  pose proof (TB_conns_fresh_reachable _ _ _ _ _ _ _ _ _ _ R) as F.
+  destruct (TB_remove_closes tb fx c now br st cache li addr p g cid TB N M A K)
+    as (st' & stp & p' & E1 & E2 & C & C0 & ND & O & X1 & X2 & X3 & N' & B1 & B2 & R1 & R2).
+  exists st', stp, p'.
+  split; [exact E1|]. split; [exact E2|]. split; [exact C|]. split; [exact C0|].
+  split; [apply ND; exact (proj1 F)|]. split; [exact O|]. split; [exact X1|]. split; [exact X2|]. split; [exact X3|].
+  split; [exact N'|]. split; [exact B1|]. split; [exact B2|]. split; [exact R1|]. split; [exact R2|].
+  exact (TB_conns_fresh_step _ _ _ _ _ _ _ _ _ _ _ F E1).
+Qed.
+
+(* TB_cached_conn_unique.  In a reachable state the connection a backend object has cached is THE connection with
+   that number: one record, to the backend's address, its number already given out; whether it can be written
+   (conn_open) is that record's flag.  So "written on the cached connection" (TB_send_reuse, TB_sticky_step)
+   determines the peer. *)
+Theorem TB_cached_conn_unique : forall tb fx c c0 now0 tl h st cache outss,
+  run_tb tb fx c (init_state c0 now0 tl) [] h = Ok (st, cache, outss) ->
+  forall li a g cid pos,
+    alookup (tb_key li a g) cache = Some cid -> last_index_byte ":"%char a = Some pos ->
+    exists cn, In cn (st_conns st) /\ cn_id cn = cid /\ cn_li cn = li /\
+               cn_peer cn = firstn pos a /\ cn_peer_port cn = atoi_val (skipn (S pos) a) /\
+               (forall cn', In cn' (st_conns st) -> cn_id cn' = cid -> cn' = cn) /\
+               conn_open (st_conns st) cid = cn_open cn /\
+               (cid < w_next_conn (st_world st))%nat.
+Proof.
+  intros tb fx c c0 now0 tl h st cache outss R li a g cid pos A LI.
+  destruct (TB_conns_fresh_reachable _ _ _ _ _ _ _ _ _ _ R) as (ND & B).
+  destruct (TB_cached_peer _ _ _ _ _ _ _ _ R _ _ _ _ _ A LI) as (cn & I & C1 & C2 & C3 & C4).
+  exists cn. split; [exact I|]. split; [exact C1|]. split; [exact C2|]. split; [exact C3|]. split; [exact C4|].
+  split; [|split].
+  - intros cn' I' E. apply (NoDup_map_inj cn_id (st_conns st) cn' cn ND I' I). rewrite E, C1. reflexivity.
+  - rewrite <- C1. exact (conn_open_unique _ _ ND I).
+  - rewrite <- C1. exact (B cn I).
+Qed.
+
+(* instances: the state after the first history *)
+Example TB_conns_fresh_ex : conns_fresh tb_st1 /\ map cn_id (st_conns tb_st1) = [0; 1; 2]%nat /\ w_next_conn (st_world tb_st1) = 3%nat.
+Proof.
+  split.
+  - assert (R : run_tb tb_flags all_fixed tb_cfg (init_state tb_cfg 0 [(s2b "10.0.0.11", 5070); (s2b "10.0.0.12", 5070)]) [] tb_hist1
+                = Ok (tb_st1, tb_cache1, tb_outs1)) by (vm_compute; reflexivity).
+    exact (TB_conns_fresh_reachable tb_flags all_fixed tb_cfg tb_cfg 0 [(s2b "10.0.0.11", 5070); (s2b "10.0.0.12", 5070)]
+             tb_hist1 tb_st1 tb_cache1 tb_outs1 R).
+  - vm_compute. split; reflexivity.
+Qed.
+Example TB_cached_conn_unique_ex :
+  exists cn, In cn (st_conns tb_st1) /\ cn_id cn = 2%nat /\ cn_peer cn = b12 /\ cn_peer_port cn = 5070 /\
+             (forall cn', In cn' (st_conns tb_st1) -> cn_id cn' = 2%nat -> cn' = cn) /\
+             conn_open (st_conns tb_st1) 2 = cn_open cn.
+Proof.
+  assert (R : run_tb tb_flags all_fixed tb_cfg (init_state tb_cfg 0 [(s2b "10.0.0.11", 5070); (s2b "10.0.0.12", 5070)]) [] tb_hist1
+              = Ok (tb_st1, tb_cache1, tb_outs1)) by (vm_compute; reflexivity).
+  assert (A : alookup (tb_key 0 (s2b "10.0.0.12:5070") 1) tb_cache1 = Some 2%nat) by (vm_compute; reflexivity).
+  assert (LI : last_index_byte ":"%char (s2b "10.0.0.12:5070") = Some 9%nat) by (vm_compute; reflexivity).
+  pose proof (TB_cached_conn_unique tb_flags all_fixed tb_cfg tb_cfg 0 [(s2b "10.0.0.11", 5070); (s2b "10.0.0.12", 5070)]
+                tb_hist1 tb_st1 tb_cache1 tb_outs1 R 0%nat (s2b "10.0.0.12:5070") 1%nat 2%nat 9%nat A LI) as H.
+  destruct H as (cn & I & C1 & _ & C3 & C4 & U & O & _).
+  exists cn. split; [exact I|]. split; [exact C1|]. split; [exact C3|].
+  split; [rewrite C4; vm_compute; reflexivity|]. split; [exact U|exact O].
+Qed.
+
 Print Assumptions TB_conservative.
 Print Assumptions TB_conservative_entry.
 Print Assumptions TB_conservative_history.
@@ -1575,3 +1950,12 @@ Print Assumptions TB_unpinned_step_ex.
 Print Assumptions TB_remove_closes_ex.
 Print Assumptions TB_cached_peer_ex.
 Print Assumptions TB_note_backend_address_learned.
+Print Assumptions TB_conns_fresh_init.
+Print Assumptions TB_conns_fresh_proxy_step.
+Print Assumptions TB_conns_fresh_step.
+Print Assumptions TB_conns_fresh_history.
+Print Assumptions TB_conns_fresh_reachable.
+Print Assumptions TB_remove_closes_reachable.
+Print Assumptions TB_cached_conn_unique.
+Print Assumptions TB_conns_fresh_ex.
+Print Assumptions TB_cached_conn_unique_ex.
